@@ -72,6 +72,10 @@ var ghostVars = []GhostVar{
 	{"alloc", SInt, "alloc"},
 	{"chanClosed", SInt, "chan"}, {"evOpen", SBool, "chan"}, {"evNext", SInt, "chan"}, {"evCur", SInt, "chan"}, {"evCount", SInt, "chan"},
 	{"msClosed", SInt, "chan"}, {"msSent", SInt, "chan"}, {"rxDone", SInt, "chan"},
+	// event times: evClock counts the readings of the (monotone, A-TIME) clock, evLastTime is the reading carried by the last
+	// event sent. Global invariant evLastTime <= evClock: assumed at entry and after calls, re-established at every send, which
+	// must carry a reading taken by time.Now (below evClock) and not older than the previous event's
+	{"evClock", SInt, "clock"}, {"evLastTime", SInt, "chan"},
 	{"opaRejected", SBool, "opa"}, {"opaEvaluated", SBool, "opa"}, {"ldRejected", SBool, "ld"},
 	{"exitCode", SInt, "exit"}, {"panicking", SBool, "exit"}, {"stdout", SString, "stdout"}, {"fsContent", SString, "fs"}, {"fsExists", SBool, "fs"}, {"fsWritable", SBool, "const"}, {"fOffset", SInt, "fs"}, {"fAppend", SBool, "fs"}, {"fWr", SBool, "fs"},
 }
